@@ -21,16 +21,21 @@ package storage
 
 // C18: the file-system bucket.
 
+// The object's file is <dir>/<bucket>/<name with the platform's separators>;
+// reader, writer and the listing's walk all resolve names under that directory.
 //@ contract NewFSObject
 //@   requires b != nil
+//@   ensures result.(*FSObject).filename == filepath.Join(b.dir, b.bucket, filepath.FromSlash(name))
 //@   modifies nothing
 
 //@ contract (*FSBucket).Object
 //@   requires b != nil
+//@   ensures result.(*FSObject).filename == filepath.Join(b.dir, b.bucket, filepath.FromSlash(name))
 //@   modifies nothing
 
 // Reading an absent object reports ErrObjectNotExist.
 //@ contract (*FSObject).NewReader
+//@   at call Open#1: assert arg0 == o.filename
 //@   at call Is#1: after ghost $notExist = result
 //@   ensures $notExist ==> result1 == ErrObjectNotExist
 //@   modifies $notExist
@@ -41,6 +46,8 @@ package storage
 // truncated (otherwise a shorter overwrite would keep the old tail).
 //@ ghost trunc bool
 //@ contract (*FSObject).NewWriter
+//@   at call MkdirAll#1: assert arg0 == filepath.Dir(o.filename)
+//@   at call Create#1: assert arg0 == o.filename
 //@   ensures result1 == nil ==> $trunc
 //@   modifies $trunc
 
@@ -59,6 +66,8 @@ package storage
 
 //@ contract (*FSBucket).Objects
 //@   requires b != nil
+//@   at call DirFS#1: assert arg0 == filepath.Join(b.dir, b.bucket)
+//@   at call WalkDir#1: assert arg1 == "."
 //@   ensures result != nil
 //@   modifies nothing
 
